@@ -49,11 +49,8 @@ CHECKS = {
         "note": COMMON_NOTE + "np.bincount/cumsum/where modelled as list functions; idempotence needs every face selected (unselected faces behind the plane are kept by design and would be dropped by a full re-slice); dtypes are observed tags.",
     },
     "C06": {
-        "text": "37 theorems (all in full, incl. the code-shaped runs/vsplit slicer = span-shaped slicer = declarative unique-run spec, cyclic for closed polylines via the roll+append "
-                "reduction, for every vertex list over every ordered field): result = entry ++ run ++ exit with on-plane neighbour or strict-interior crossing, interior vertices are an "
-                "infix of the input, no row behind the plane, rows finite, result open, ValueError exactly when no unique run exists. Tie: exhaustive enumeration of all front/on/behind "
-                "sign sequences (len 0..6 quick, 0..9 thorough, open and closed) at exact rationals + float stream.",
-        "note": COMMON_NOTE + "np.roll/vsplit/nan_to_num modelled as list functions with explicit branches.",
+        "text": "41 theorems (all in full; the code-shaped runs/vsplit slicer = span-shaped slicer = declarative unique-run spec, cyclic for closed polylines via the roll+append reduction, for every vertex list over every ordered field; crossing computed from the same signed distances that decide the sides, as the repaired code does): result = entry ++ run ++ exit with on-plane neighbour or a crossing a+t(b-a), t in [0,1) resp. (0,1], on the plane; interior vertices are an infix of the input; no row behind the plane; result open; ValueError exactly when no unique run exists; the same kernel run on signs observed from the implementation refines the same spec. Tie: exhaustive enumeration of all front/on/behind sign sequences (len 0..6 quick, 0..9 thorough, open and closed) at exact rationals, float stream, and a near-plane stream (vertices within a few ulps of the plane, signs taken from the implementation) checking finiteness / on-segment / not-behind.",
+        "note": COMMON_NOTE + "np.roll/vsplit/sign modelled as list functions. In the near-plane stream the side of a vertex is whatever plane.sign() says (not determined by exact arithmetic).",
     },
     "C15": {
         "text": "56 theorems (all in full): translated tables/constants (quad picks, edge columns, cross rows, searchsorted side, reflect test, seed) equal the model's; normals = cross product, "
@@ -63,11 +60,8 @@ CHECKS = {
         "note": COMMON_NOTE + "np.searchsorted modelled as 'number of leading entries <= x' on non-decreasing cumulative weights; rng.random values are passed to the model as data.",
     },
     "C07": {
-        "text": "44 theorems: closest_point_of_line_segment is optimal over the whole segment with 0<=t<=1 (zero-length branch explicit); is_point_on_line_segment iff squared distance <= eps^2; "
-                "nearest: valid index, point = start + t*vector, first-minimal index, distance minimal over every point of every segment (ordered field for squared distances, R for distances), "
-                "stacked = map; flag logic: every requested output returned for all flag sets except ret_t_values alone (known finding: defect witness proved, full statement kept as a def and proved false of the model); "
-                "sub-path selection (sliced_at_points, aligned_along_subsegment) proved under explicit landing-segment hypotheses - partial. Tie: lattice/float/degenerate chains, all 8 flag subsets, exact-Fraction optimum oracle.",
-        "note": COMMON_NOTE + "Sub-path clause is partial (that a non-self-touching polyline implies the index hypotheses is not formalised; closing-edge/wrap original-index versions missing). np.argmin first-index rule modelled.",
+        "text": "75 theorems: closest_point_of_line_segment optimal over the whole segment with 0<=t<=1 (zero-length branch explicit); is_point_on_line_segment iff squared distance <= eps^2; nearest: valid index, point = start + t*vector, first-minimal index, distance minimal over every point of every segment (squared distances over any ordered field, distances over R), stacked = map; flag logic: every requested output returned for all flag sets except ret_t_values alone (known finding: witness proved, full statement refuted for the model); sub-path clause: for every SIMPLE polyline (non-degenerate segments, non-adjacent disjoint, adjacent meeting only at the shared vertex) and two points on it, nearest finds each point on its own segment, sliced_at_points returns exactly [N_a] ++ vertices between ++ [N_b] in every configuration (forward, wrap, closing edge, same segment both orders, ValueError for backward on open), the two closed sub-paths cover the loop once, aligned_along_subsegment returns the orientation with the forward / shorter sub-path. Remaining hypothesis: the two points are not within atol (1e-8) of each other. Tie: lattice/float/degenerate chains, all 8 flag subsets, every sub-path configuration, exact-Fraction optimum oracle.",
+        "note": COMMON_NOTE + "np.argmin first-index rule modelled. Two distinct query points closer than the 1e-8 vertex-matching tolerance are outside the proved sub-path theorem (the code returns a one-vertex polyline) and not generated.",
     },
     "C09": {
         "text": "37 theorems (all in full): edges/num_e/segments, flipped involution, rolled for any integer index incl. its edge mapping, sliced_at_indices (wrap / reversed -> ValueError), sectioned, join, "
@@ -84,11 +78,8 @@ CHECKS = {
         "note": COMMON_NOTE + "nan_to_num(inf) value passed as a parameter `big`; behaviour with both endpoints on the plane (outside the property) is stated as separate theorems.",
     },
     "C19": {
-        "text": "50 theorems (all in full): a Draft-7 interpreter for the subset used, run on the schema regenerated from schema.json: a document validates iff it is an object with exactly the two required keys, "
-                "isClosed boolean, every vector exactly three numbers (bool/str/null/arr/obj are not numbers) - both directions, hence every single-fault corruption is refused; deserialize never constructs from refused data; "
-                "round-half-even error <= half a unit of the last decimal; deserialize(serialize(p,d)) = rounded(p,d) for polylines (empty included) and planes; rounded/serialize succeed for every non-negative number of "
-                "decimals on a unit normal (|norm(round n) - 1| <= (sqrt3/2) 10^-d). Tie: real jsonschema + json.dumps/loads, decimals 0..12, all single-fault corruptions.",
-        "note": COMMON_NOTE + "json.dumps/loads and jsonschema are external (compared, not verified); np.around's float multiply/divide compared with tolerance, exact ties where the float product is inexact are dropped as undetermined.",
+        "text": "62 theorems (all in full): a Draft-7 interpreter for the subset used, run on the schema regenerated from schema.json: a document validates iff it is an object with exactly the two required keys, isClosed boolean, every vector exactly three numbers - both directions, hence every single-fault corruption is refused; deserialize never constructs from refused data; round-half-even error <= half a unit of the last decimal; deserialize(serialize(p,d)) = rounded(p,d) for polylines (empty included) and planes; rounded/serialize succeed for every non-negative number of decimals for normals that are unit up to a slack |n.n - 1| <= delta (explicit condition; instantiated at 4*2^-52, i.e. normalised in double precision, and d <= 12), exact-unit versions as corollaries. Tie: real jsonschema + json.dumps/loads, decimals 0..12 for every pair of decimals and octant, all single-fault corruptions.",
+        "note": COMMON_NOTE + "json.dumps/loads and jsonschema are external (compared, not verified); np.around's float multiply/divide compared with tolerance, exact ties where the float product is inexact (e.g. 0.15 at 1 decimal) are dropped as undetermined.",
     },
     "C18": {
         "text": "38 theorems (all in full): projection onto a line lands on the line, residual perpendicular, norm-closest and unique (algebraic form over any ordered field, vg.normalize form over R), "
@@ -100,40 +91,24 @@ CHECKS = {
                 "Known finding: non-zero directions with all components <= 1e-8 are rejected by Line (vg.almost_zero convention).",
     },
     "C03": {
-        "text": "35 theorems (all in full, any ordered field): applying a composed matrix = applying the steps one after another (affine steps; homogeneous form for arbitrary matrices; vector mode), every builder is affine, acts as documented "
-                "and its stored pair is a two-sided inverse pair; for every history and every Python slice from_range the call equals the left fold of the step actions over steps[start:stop], reverse composes the stored inverses in reverse order, "
-                "transform_matrix_for(reverse) * transform_matrix_for() = 1, round trip, vector mode ignores translations, stack = map, discard_z, each appending method returns the old length so returned indices select exactly those steps. "
-                "Call sites / delegation / returned index regenerated from the source. Tie: random histories of every method replayed whole in the model (exact rationals for exactly-invertible steps, doubles for Rodrigues/reorient/units).",
-        "note": COMMON_NOTE + "Rotations enter the model as 3x3 data (their orthogonality is C10/C11's subject); np.linalg.inv, ounce factors, rotation_from_up_and_look and Rodrigues outputs are obtained from the real functions and passed as data, "
-                "the oracle checks each stored pair is an inverse pair.",
+        "text": "38 theorems over any ordered field: applying a composed matrix = applying the steps one after another (affine steps; homogeneous form for arbitrary matrices; vector mode), every builder is affine, acts as documented and stores a two-sided inverse pair; for every history and every Python slice from_range the call equals the left fold of the step actions over steps[start:stop], reverse composes the stored inverses in reverse order, transform_matrix_for(reverse) * transform_matrix_for() = 1, round trip, vector mode ignores translations, stack = map, discard_z, each appending method returns the old length. The unrestricted clauses (explicit NON-affine matrices) are false of code and model: full statements kept as defs, defect witnesses proved, known finding roundtrip/non-affine-explicit-matrix. Call sites / delegation / returned index regenerated from the source. Tie: random histories of every method (incl. non-affine unimodular explicit matrices) replayed whole in the model.",
+        "note": COMMON_NOTE + "Rotations enter the model as 3x3 data (their orthogonality is C10/C11's subject); np.linalg.inv, ounce factors, rotation_from_up_and_look and Rodrigues outputs are obtained from the real functions and passed as data, the oracle checks each stored pair is an inverse pair. Known finding: round trip / step-by-step action fail for non-affine explicit matrices (apply_transform drops w).",
     },
     "C04": {
-        "text": "21 theorems (all in full): invariant (every tag index <= number of steps) by induction over scripts; do_transform = forward fold over steps[i:j] if i<j, inverse fold in reverse order if i>j, identity if equal; "
-                "path independence A->C = A->B->C, round trip, appending transforms or new tags or re-tagging other names never changes conversions between existing tags, getattr/setattr specs, and the three error classes "
-                "(AttributeError, KeyError, ValueError). Tie: random interleavings (<= 6 tag names, equal positions, re-tagging, reads by attribute and by do_transform, every ordered tag pair) replayed whole in the model.",
+        "text": "24 theorems: invariant (every tag index <= number of steps) by induction over scripts; do_transform = forward fold over steps[i:j] if i<j, inverse fold in reverse order if i>j, identity if equal; path independence, round trip (for well-formed = affine inverse-pair steps), appending transforms / new tags / re-tagging other names never changes conversions between existing tags, getattr/setattr specs, the three error classes. Unrestricted path independence / round trip are false for non-affine explicit matrices: defs kept, witnesses proved, known finding path-independent/non-affine-explicit-matrix. Tie: random interleavings (<= 6 tag names, equal positions, re-tagging, both read forms, every ordered tag pair, non-affine steps) replayed whole in the model.",
         "note": COMMON_NOTE + "Tag names that collide with attribute/method names of the class (e.g. 'flip', '_points') are not generated (recorded assumption).",
     },
     "C08": {
-        "text": "40 theorems: segment lengths / total / length-weighted centroid definitions (R); point_along_path: lies on the first segment with cum_i <= fL < cum_{i+1}, equals an independent recursive arc-length walk for every f in [0,1], "
-                "f=0 first vertex, f=1 last vertex (first again if closed), junction matching and a global Lipschitz bound |P(f)-P(g)| <= L|f-g| (continuity); subdivide_segment = linspace; subdivide_segments without NaN on zero-length segments; "
-                "subdivided_by_length: original vertices at the returned indices, inserted points a+(k/n)(b-a) with n = ceil(len/max) the least n with len/n <= max, unselected/short edges untouched, closedness and total length kept; "
-                "with_segments_bisected positions and index maps (total-length clause partial, checked by the oracle). Tie: Float + exact rationals on rational-length chains, thresholds, masks, stacked fractions incl. 0 and 1.",
-        "note": COMMON_NOTE + "bisected total-length clause (closed polylines: midpoint of the closing segment is inserted before vertex 0) is oracle-only.",
+        "text": "45 theorems (all in full): segment lengths / total / length-weighted centroid (R); point_along_path: lies on the first segment with cum_i <= fL < cum_{i+1}, equals an independent arc-length walk for every f in [0,1], f=0 first vertex, f=1 last vertex (first again if closed), junction matching and a global Lipschitz bound (continuity); subdivide_segment = linspace, subdivide_segments without NaN on zero-length segments, both length preserving; subdivided_by_length: original vertices at the returned indices, inserted points a+(k/n)(b-a) with n = ceil(len/max) least with len/n <= max, unselected/short edges untouched, closedness and total length kept; with_segments_bisected: positions, index maps, and total length unchanged (midpoint split, repeated indices as zero-length segments, rotation invariance of the closed length). Tie: Float + exact rationals on rational-length chains, thresholds, masks, stacked fractions incl. 0 and 1.",
+        "note": COMMON_NOTE + "np.cumsum/argmax/ceil/linspace/insert modelled as list functions.",
     },
     "C10": {
-        "text": "35 theorems: algebraic cores over any field (R^T R = R R^T = I, det = 1, axis fixed, right-handed turn of perpendicular vectors, J_fwd J_inv = I3 via sympy certificates); over R for the actual model functions: forward is a proper rotation "
-                "for every r with the stated axis/angle, identity for r = 0 and within eps of the true rotation under the theta<eps shortcut; inverse returns exactly theta*k for 0<theta<pi with sin theta >= 1e-5 (arccos_cos), both round trips, "
-                "half-turns about every axis incl. zero components give +-pi*k mapping back to R, length <= pi in every branch, dispatch by size/shape and ValueError; Jacobian composition for the model functions. Partial: near-pi half of the 2.5e-5 snap bound "
-                "and 'Jacobian = derivative' (measured / central differences). Thresholds, skew pattern, r_out structure and Jacobian index tables regenerated from the source. Tie: Float correspondence incl. near-0/near-pi sweeps and all 26 lattice half-turns.",
-        "note": COMMON_NOTE + "np.linalg.svd projection is a parameter (NumPy's u@vt is fed to the model, residual checked); Euler's rotation theorem (every proper rotation is rot(k,theta)) is not formalised - inverse theorems are stated on rot(k,theta); "
-                "libm sin/cos/acos in the Float run are not verified.",
+        "text": "46 theorems: algebraic cores over any field (R^T R = R R^T = I, det = 1, axis fixed, right-handed turn, J_fwd J_inv = I3 via sympy certificates); over R for the actual model functions: forward is a proper rotation for every r with the stated axis/angle, identity at 0 and within eps under the theta<eps shortcut; inverse returns exactly theta*k for 0<theta<pi with sin theta >= 1e-5, both round trips, half-turns about every axis give +-pi*k mapping back to R, length <= pi in every branch; the 2.5e-5 snap bound proved in full (near 0: s+s^2; near pi: 2.5 sin theta, using the repaired symmetric-part sign tests, which are regenerated from the source and tied by gen_sign_tests); dispatch and ValueError; Jacobian composition outside the snap branch (the full clause is refuted at half-turns: known finding jacobian/composition/snap-branch). 'Jacobian = derivative' is measured against central differences only. Tie: Float correspondence incl. near-0/near-pi sweeps, near-pi rotations about axes with tiny components, all 26 lattice half-turns.",
+        "note": COMMON_NOTE + "np.linalg.svd projection is a parameter (NumPy's u@vt is fed to the model, residual checked); Euler's rotation theorem (every proper rotation is rot(k,theta)) is not formalised - inverse theorems are stated on rot(k,theta); libm sin/cos/acos in the Float run are not verified.",
     },
     "C11": {
-        "text": "35 theorems (all in full): euler elementary matrices are proper right-handed rotations, euler = product in the listed order, degrees = radians*pi/180 (R); rotation_from_up_and_look raises exactly for zero up / zero look / collinear, otherwise a "
-                "proper rotation with R*up = (0,|up|,0) and R*look in the y-z half-plane with positive z (R); rotation/translation/scale builders: 4x4 with last row 0001, documented action, forward*inverse = inverse*forward = 1, raise logic as an iff; "
-                "apply w=1/w=0, stack = map; compose [] = 1 and apply (compose ts) = fold for affine matrices (with a proved counterexample that affinity is needed). Every literal of these functions is regenerated from the source and tied by ring/rfl. "
-                "Tie: all 39 axis-order strings x both units every run; exact rationals for affine builders, doubles for euler/up-look.",
-        "note": COMMON_NOTE + "float64 dtype of rotation_from_up_and_look and the Rodrigues-vector form of transform_matrix_for_rotation are oracle/correspondence only. up/look magnitudes whose squared norm under/overflows doubles are not generated.",
+        "text": "36 theorems: euler elementary matrices are proper right-handed rotations, euler = product in the listed order, degrees = radians*pi/180 (R); rotation_from_up_and_look raises exactly for zero up / zero look / collinear (exact arithmetic), otherwise a proper rotation with R*up = (0,|up|,0) and R*look in the y-z half-plane with positive z (R); rotation/translation/scale builders: 4x4 with last row 0001, documented action, forward*inverse = inverse*forward = 1, raise logic as an iff; apply w=1/w=0, stack = map; compose [] = 1 and apply (compose ts) = fold for AFFINE matrices; the unrestricted compose-order clause is refuted (witness; known finding compose/order/non-affine). Every literal of these functions is regenerated from the source and tied by ring/rfl. Tie: all 39 axis-order strings x both units every run; exact rationals for affine builders (incl. non-affine matrices for apply/compose), doubles for euler/up-look.",
+        "note": COMMON_NOTE + "float64 dtype of rotation_from_up_and_look and the Rodrigues-vector form of transform_matrix_for_rotation are oracle/correspondence only. up/look pairs closer to collinear than 1e-6 rad, or with squared norm under/overflowing doubles, are not generated.",
     },
     "C12": {
         "text": "26 theorems (all in full): world_to_view has orthonormal rows and columns, is an isometry, sends position to 0, target to (0,0,dist), up to (0,y>0,.) (R); orthographic matrix maps the view box corners to the cube (near to -1) and "
